@@ -6,7 +6,8 @@ LEVEL = "proof"
 RULE = ("patterns from the gitignore grammar {name,*,**,?,[a-c],{a,b},*.rego,multi-byte} x leading/trailing/inner '/' "
         "up to 4 segments; relative files up to depth 4; prefixes none / abs dir / file:// URI. Enumerated in "
         "order of size and sampled with the seed when above the tier budget. A case is non-trivial when at least "
-        "one side excludes the file (distinct = distinct (pattern,file,prefix))")
+        "one side excludes the file (distinct = distinct (pattern,file,prefix))"
+        ' Also end to end through the real Linter: config ignore.files x --ignore-files x per-rule ignore; files scanned == files the Rego matcher leaves under the effective patterns.')
 TRUSTED = ["gobwas/glob is one abstract matcher shared by both sides (theorems are for every matcher)",
            "byte-level Go string tests against ASCII literals coincide with code-point tests (UTF-8 fact; sampled)"]
 ASSUMPTIONS = ["prefix is empty (then file names are relative) or a directory/URI not ending in '/'",
